@@ -2,6 +2,7 @@
 //! Usage: dltmc <C01..C19> [--tier quick|thorough] [--replay <file>]
 //! Exit 0: property held on everything explored; 1: VIOLATION line(s) printed; 2: machinery failure.
 
+mod bulk;
 mod common;
 mod explore;
 mod fibexgen;
